@@ -13,9 +13,10 @@ CONSTANTS
   NWs = {1}
   GWs = {1}
   Buds = {0}
+  BudAllowed <- AllMetrics
   NSAs = {FALSE}
   OptSets <- OptsKeysOn
   Budgets = {3}
 VIEW MCView
-INVARIANTS TypeOK AtMostOnce ExactlyOnce Unbiased KeptRowsFactorGE1 NoSampleAgentKept SameFactorInLeaf FitsNothingSampled FairShare FixedWithinBudget FairShareRemaining FitIsJustified Monotone KeptWithinBudget QuotaWithinTotal QuotaProportional QuotaFitIsSize QuotaWithinTotalAnyRounding ExportDone
+INVARIANTS TypeOK AtMostOnce ExactlyOnce Unbiased KeptRowsFactorGE1 NoSampleAgentKept SameFactorInLeaf FitsNothingSampled FairShare FixedWithinBudget FairShareRemaining FitIsJustified Monotone KeptWithinBudget QuotaWithinTotal QuotaProportional QuotaFitIsSize QuotaWithinTotalAnyRounding MustMatchesMechanism ExportDone
 CHECK_DEADLOCK FALSE
